@@ -43,9 +43,10 @@ def codecs():
         S.TTupl(S.TSeq(S.THexInt(), 1), S.TFixStr("/"), S.TGrid(hexdot)), S.TTupl(S.TGrid(S.TMultiDigit(6, 2)), S.TSeq(S.TDict([7, 8], ["_", "A"]), 2)),
         S.TValuedRooms(S.TDecInt()), S.TTupl(S.TRooms(), S.TGrid(hexdot)), S.TGrid(S.TDict([1, 2], ["-", "+f"])),
         S.TGrid(S.TOneOf(S.TDict([7], ["."]), S.TSpaces(0, "0"))), S.TGrid(S.TOneOf(S.TSpaces(-1, "k"), S.THexInt())),
+        S.TValuedRooms(S.TOneOf(S.TSpaces(0, "g"), S.THexInt())),
     ]
     for t in lib:
-        out["lib:" + t.name] = (t.build(), "any")
+        out["lib:" + t.name] = (t.build(), "valued-rooms" if t.name.startswith("ValuedRooms") else "any")
     return out
 
 
@@ -360,7 +361,8 @@ def mid_problems(cname):
             toks = ["^1", "..", "v0", "<2", "..", "..", ">11", "??", ".."]
             for mode in range(2):
                 out.append((h, w, [[toks[(y * w + x + mode) % len(toks)] for x in range(w)] for y in range(h)]))
-        elif cname in ("lits", "norinori", "rooms-lenient", "heyawake"):
+        elif cname in ("lits", "norinori", "rooms-lenient", "heyawake") or (cname.startswith("lib:ValuedRooms") and "DecInt" not in cname):
+            # (ValuedRooms(DecInt) is left out: consecutive decimal values are not self-delimiting, see DESIGN 7.2 C15)
             parts = []
             parts.append([[(y, x) for y in range(h)] for x in range(w)])  # columns
             parts.append([[(y, x) for x in range(w)] for y in range(h)])  # rows
@@ -375,7 +377,10 @@ def mid_problems(cname):
             if all(_connected(b) for b in stair.values()):
                 parts.append(list(stair.values()))
             for rooms in parts:
-                if cname == "heyawake":
+                if cname.startswith("lib:ValuedRooms"):
+                    out.append((h, w, (rooms, [1 + k % 9 for k in range(len(rooms))])))
+                    out.append((h, w, (rooms[1:] + rooms[:1], [(3 * k) % 14 + 1 for k in range(len(rooms))])))
+                elif cname == "heyawake":
                     out.append((h, w, (rooms, [k % 10 for k in range(len(rooms))])))
                     out.append((h, w, (list(reversed(rooms)), [(-1 if k % 3 == 0 else k % 7) for k in range(len(rooms))])))
                     rot = rooms[1:] + rooms[:1]
@@ -398,6 +403,34 @@ def _connected(cells):
             if q in cells:
                 todo.append(q)
     return seen == cells
+
+
+def poison_shared_results(part):
+    """What a hand-written decoder may legitimately do: read single characters through bare item combinators and change
+    the returned lists in place.  Nothing a later decode returns may depend on that."""
+    from cspuz import problem_serializer as ps
+
+    env = ps.CombinatorEnv(height=1, width=1)
+    combs = [ps.MultiDigit(2, 5), ps.MultiDigit(3, 3), ps.MultiDigit(2, 4), ps.MultiDigit(6, 2), ps.HexInt(), ps.DecInt(), ps.Spaces(0, "g"), ps.Dict([1, 2], ["a", "b"]), ps.IntSpaces(-1, 4, 2)]
+    for comb in combs:
+        for ch in B36:
+            try:
+                r = comb.deserialize(env, ch, 0)
+            except Exception:
+                continue
+            if r is not None and isinstance(r[1], list):
+                lst = r[1]
+                lst.reverse()
+                lst.extend([1, 1, 1])
+    part.count("evaluations")
+
+
+def run_cross(part, first, second):
+    """Two codecs in one process: everything `first` can do on the mid-sized boards happens before `second` is judged
+    (codecs that share a combinator class must not share what they remember)."""
+    run_mid(harness.Partial(), first)
+    run_mid(part, second)
+    part.add("mid", ("after", first, second))
 
 
 def run_mid(part, cname):
@@ -437,7 +470,11 @@ def worker(shard, part):
         run_runs(part, shard[1], shard[2], shard[3])
         return
     if what == "mid":
+        poison_shared_results(part)
         run_mid(part, shard[1])
+        return
+    if what == "cross":
+        run_cross(part, shard[1], shard[2])
         return
     if what == "long":
         run_long(part, shard[1])
@@ -479,18 +516,23 @@ def main(tier, seed, only=None):
         sides = RUN_SIDES if tier == "quick" else RUN_SIDES + [7, 10, 11, 16, 18]
         for a in sides:
             shards.append(("runs", cname, a, tuple(sides)))
+    roomy = [c for c in cs if c in ("heyawake", "lits", "norinori", "rooms-lenient") or "Rooms" in c]
+    for a in roomy:
+        for b in roomy:
+            if a != b:
+                shards.append(("cross", a, b))
     if only:
         shards = [s for s in shards if s[0] == only or (len(s) > 1 and s[1] == only)]
     run = harness.Run(
         PID, tier, seed, "exploration",
         "alphabet = one representative per character class the decoders distinguish: %r (16 symbols incl. an Arabic-Indic digit and a "
-        "superscript two).  Bodies: for each of %d codecs (9 puzzle codecs, lenient Rooms, 13 library combinator terms) ALL strings of length "
+        "superscript two).  Bodies: for each of %d codecs (9 puzzle codecs, lenient Rooms, 14 library combinator terms) ALL strings of length "
         "<= 3 under every declared (h, w) in {0..3}^2 and ALL strings of length 4 under %s%s.  URL level: 4 schemes x 3 hosts x 4 paths x 8 "
         "dimension spellings x puzzle names (right/alias/wrong) x body classes through the module decoders, deserialize_problem_as_url "
         "(allow_failure off/on) and get_puzzle_info_from_url.  Scale family: one-room and striped n x n boards for n in 10,20,32,40,64; for every puzzle codec a canonical body longer than 256 "
         "characters (boards 16x16 .. 30x30) cut at 0,1,2,127..129,254..260 and at its end, and extended by garbage.  Runs: every text of one base-36 character (or . -) repeated 1..12 times, "
         "also followed by one of 0 a z ., under every declared board with sides in {1,2,3,4,5,6,8,9,12} (thorough also 7,10,11,16,18).  Mid-sized boards (2x4 .. 4x7, both orientations): the encodings of structured problems "
-        "(distinct values in distinct places; rooms as rows / columns / cells / blocks / stairs in several list orders), each of their prefixes and all single-character substitutions by 0 g . z.  "
+        "(distinct values in distinct places; rooms as rows / columns / cells / blocks / stairs in several list orders), each of their prefixes and all single-character substitutions by 0 g . z; before that the lists returned by bare item combinators for every character are changed in place (as an accumulating hand-written decoder does), and every ordered pair of room-based codecs is run back to back in one process.  "
         "Non-trivial = distinct inputs that decoded to a problem (checked for dimensions and stable re-encoding)."
         % ("".join(ALPHABET), len(cs), "(h, w) in {1,2}^2" if tier == "quick" else "every (h, w)", "" if tier == "quick" else " and length 5 under (h, w) in {1,2}^2"),
     )
